@@ -4,7 +4,7 @@ code against a reference extractor written from the property statement, over con
 read-buffer boundaries, fillers, key lists and all-keys mode, several candidates, and the no-candidate ValueError."""
 import os, sys, io, tempfile
 sys.path.insert(0, os.path.dirname(os.path.abspath(__file__)))
-from common import Component, emit, rng, TIER, time_limit, CaseTimeout, load_spec_module
+from common import Component, emit, rng, TIER, time_limit, CaseTimeout, load_spec_module, limited_call
 cfggen = load_spec_module("cfggen")
 gens = load_spec_module("gens")
 from dissect.cobaltstrike.beacon import BeaconConfig
@@ -172,24 +172,26 @@ while done < N and attempts < 20 * N:
                "filler": kind, "truncated": cut, "data_len": len(data), "data_hex": data.hex() if len(data) <= 30000 else data[:30000].hex()}
     try:
         _io.DEFAULT_BUFFER_SIZE = B
-        with time_limit(20):
+        start_pos = rng.randrange(0, len(data) + 1)
+
+        def call():
             if api == "bytes":
-                bc = BeaconConfig.from_bytes(data, **kw)
+                return BeaconConfig.from_bytes(data, **kw)
             elif api == "file":
                 fh = _io.BytesIO(data)
-                fh.seek(rng.randrange(0, len(data) + 1))        # any initial position
-                bc = BeaconConfig.from_file(fh, **kw)
-            else:
-                p = os.path.join(tmpdir, "sample.bin")
-                open(p, "wb").write(data)
-                bc = BeaconConfig.from_path(p, **kw)
+                fh.seek(start_pos)        # any initial position
+                return BeaconConfig.from_file(fh, **kw)
+            p = os.path.join(tmpdir, "sample.bin")
+            open(p, "wb").write(data)
+            return BeaconConfig.from_path(p, **kw)
+        bc = limited_call(call)
         ok = (bytes(bc.config_block) == want[0] and bc.xorkey == want[1] and bc.xorencoded == want[2]
               and settings_of(bc) == expected_settings(want[0]))
         witness.update(got_key=repr(bc.xorkey), got_xorencoded=bc.xorencoded, want_key=want[1].hex(), want_xorencoded=want[2],
                        block_equal=bytes(bc.config_block) == want[0], settings_equal=settings_of(bc) == expected_settings(want[0]))
     except CaseTimeout:
         ok = False
-        witness["error"] = "timeout"
+        witness["error"] = "no result within 900 s of CPU time"
     except Exception as ex:   # noqa
         ok = False
         witness["error"] = repr(ex)
